@@ -322,6 +322,10 @@ func one(c *core.Ctx, runner *cli.Runner, tc *tcase, corrupt bool, rejected, jud
 		c.Violation("undecodable-output", fmt.Sprint(err1, err2), replay)
 		return
 	}
+	if tc.mode == "json" {
+		canonLists(&oo)
+		canonLists(&ou)
+	}
 	if corrupt && len(oo.Rows) > 0 {
 		oo.Rows, oo.Sign = oo.Rows[1:], oo.Sign[1:]
 	}
@@ -374,6 +378,28 @@ func one(c *core.Ctx, runner *cli.Runner, tc *tcase, corrupt bool, rejected, jud
 		}
 	}
 	c.Violation("optimizer-changes-result/"+tc.shape, why, replay)
+}
+
+// canonLists sorts the elements of JSON list cells: a list comes from a subquery expression or
+// array_agg, whose element order is the arrival order of records and not part of the result.
+func canonLists(o *joinref.Output) {
+	for _, r := range o.Rows {
+		for i, v := range r {
+			if v.K != '?' || !strings.HasPrefix(v.S, "[") {
+				continue
+			}
+			var elems []json.RawMessage
+			if json.Unmarshal([]byte(v.S), &elems) != nil {
+				continue
+			}
+			strs := make([]string, len(elems))
+			for j, e := range elems {
+				strs[j] = string(e)
+			}
+			sort.Strings(strs)
+			r[i].S = "[" + strings.Join(strs, ",") + "]"
+		}
+	}
 }
 
 func classify(se string) string {
